@@ -63,6 +63,7 @@ def run(ctx: core.Ctx):
             if got in ("@UNDEFINED", "@RESTRICTED") and v not in ("@UNDEFINED", "@RESTRICTED"):
                 ctx.violation(f"{rec}: recorded value {v!r} of {s}:{f} was replaced by an error marker", {"recording": rec, "subunit": s, "function": f}, {"kind": "ingest-error-overwrites"})
         keys = sorted(last.keys())
+        err_only = srv.error_only_keys(path)
         for q in range(nseq):
             real = srv.RealServer(path)
             shadow = dict(last)          # abstract map for ordinary pairs
@@ -96,6 +97,10 @@ def run(ctx: core.Ctx):
                     if f == "PWR":
                         touched_special.update(["SYS", "MAIN", "ZONE2", "ZONE3", "ZONE4"])
                     continue
+                if v == "?" and not out and exc is None and ((s, f) in shadow or (s, f) in err_only) and s not in touched_special:
+                    # (a multi-value query for which the recording has neither members nor an entry of its own may stay unanswered: left open)
+                    ctx.violation(f"{rec}: GET {s}:{f} was not answered at all although the recording has an entry for it ({shadow.get((s, f), "an error reply")!r}): a GET is answered with the stored value(s) or with an error line",
+                                  {"recording": rec, "commands": cmds[-20:]}, {"kind": "get-unanswered"})
                 if f in srv.SPECIAL:
                     # multi-value / special GET: only stored members (or the STRAIGHT override), or one error line
                     for o in out:
